@@ -437,3 +437,34 @@ class AsyncEventCall(AsyncBinding, EventCall):
     real_qualname = EVQ + "Event.__call__"
     params = [("self", "ABoundEvent"), ("*args", "tuple"), ("**kwargs", "dict[str,Val]")]
     properties = ["C05"]
+
+
+# =========================================================================== C13: Event.__get__
+class AnyInstance:
+    pass
+
+
+ClassModel("AnyMachine", bases=["StateMachine"], heapname="StateMachine", truthy_fn=lambda path, v: truthy(v.e))
+CLASSES["AnyMachine"].getattr_fn = sm_getattr
+
+
+@register
+class EventGet(Contract):
+    """Event.__get__(instance, owner) (C13): on an instance — whatever its truth value (a machine
+    class may define __len__/__bool__) — a BoundEvent of the same id and name bound to it; on the
+    class (instance is None) the Event itself."""
+
+    qualnames = [EVQ + "Event.__get__"]
+    params = [("self", "Event"), ("instance", "Opt[AnyMachine]"), ("owner", "Val")]
+    returns = "Event"
+    modifies = ["Event.id+", "Event.name+", "Event._sm+", "Event._has_real_id+", "Event._transitions+"]
+    properties = ["C13"]
+
+    def post(self, s0, s, a, r):
+        inst = a.instance.e
+        return {
+            "C13|on-the-class-the-event-itself": z3.Implies(inst == NONE, r.e == a.self.e),
+            "C13|on-an-instance-a-bound-event-of-the-same-id-bound-to-it": z3.Implies(inst != NONE, z3.And(
+                r.e >= s0["ghost.alloc"], s.sel("Event.id", r) == s0.sel("Event.id", a.self.e),
+                s.sel("Event.name", r) == s0.sel("Event.name", a.self.e), s.sel("Event._sm", r) == inst)),
+        }
